@@ -181,7 +181,13 @@ pub fn ends_in_rt_array(sd: &StructDef) -> bool {
 
 /// Rust path of a WGSL identifier used as a Rust identifier (names are generated to be valid in both)
 pub fn rid(name: &str) -> String {
-    name.to_string()
+    // a WGSL name that is a Rust keyword is the raw identifier of that name
+    const KW: [&str; 6] = ["in", "dyn", "box", "async", "await", "try"];
+    if KW.contains(&name) {
+        format!("r#{name}")
+    } else {
+        name.to_string()
+    }
 }
 
 /// Options for properties that do not study derives: every derive off, except encase when some
